@@ -33,6 +33,7 @@ RES = (1, 2, 3, 7, 96, 100, 192, 480, 960)
 BPMS = (1, 999, 1000, 1001, 1118, 59999, 120000, 120001, 333333, 20548, 99999999, 10**9)
 GAPS = (1, 2, 3, 191, 192, 193, 1000)
 SUB_BPMS = (1, 1000, 120000, 10**9)
+LONG = (9, 10, 11, 16, 17, 18, 33, 65)  # tempo-map lengths around plausible fast-path thresholds
 BPMS3_QUICK = (1, 1000, 1118, 120000, 333333, 10**9)
 LIMIT = 10**12  # microseconds: 10^6 s
 TOL = Fraction(1, 2) + Fraction(2, 1000)
@@ -100,12 +101,15 @@ def plan(tier, seed):
     for r in ress:
         for n0 in BPMS:
             shards.append(("full", r, n0, 2 if tier == "quick" else 3))
+    for r in (1, 7, 192, 480):
+        for n_events in LONG:
+            shards.append(("long", r, n_events))
     if tier == "thorough":
         for r in RES:
             for n0 in SUB_BPMS:
                 for n1 in SUB_BPMS:
                     shards.append(("deep", r, n0, n1, 6 if r in (1, 192) else 5))
-    b = dict(resolutions=list(ress), bpm_thousandths=list(BPMS), gaps=list(GAPS), segments=3, third_gap=[1, 192] if tier == "quick" else [1, 2, 192, 1000], third_bpm=list(BPMS3_QUICK) if tier == "quick" else list(BPMS))
+    b = dict(long_maps="tempo maps of %r events (4 gap cycles x 3 BPM rotations) for resolutions 1, 7, 192, 480" % (LONG,), resolutions=list(ress), bpm_thousandths=list(BPMS), gaps=list(GAPS), segments=3, third_gap=[1, 192] if tier == "quick" else [1, 2, 192, 1000], third_bpm=list(BPMS3_QUICK) if tier == "quick" else list(BPMS))
     if tier == "thorough":
         b["deep"] = "k=4..5 (k=6 for resolutions 1 and 192) over bpm %r, gaps [1,192]" % (SUB_BPMS,)
     return dict(shards=shards, bounds=b, budget_s=1500 if tier == "thorough" else 300)
@@ -114,8 +118,11 @@ def plan(tier, seed):
 def probe_ticks(tempo, res):
     last = tempo[-1][0]
     cand = {0, 1}
-    for t, _ in tempo:
-        cand |= {t - 1, t, t + 1}
+    n = len(tempo)
+    for i, (t, _) in enumerate(tempo):
+        # long maps: events around the first / last tempo changes and every 7th one in between
+        if n <= 12 or i < 3 or i >= n - 3 or i % 7 == 0:
+            cand |= {t - 1, t, t + 1}
     cand |= {last + 1, last + 191, last + 10**4, last + 10**6}
     return [t for t in sorted(cand) if t >= 0 and exact_us(tempo, res, t)[0] < LIMIT]
 
@@ -125,12 +132,22 @@ def build(tempo, res):
     sync = ["%d = B %d" % tn for tn in tempo] + ["%d = TS 4" % t for t in pts]
     if 0 not in pts:
         sync.append("0 = TS 4")
-    ev, body = [], []
+    ev, body, body2 = [], [], []
     for i, t in enumerate(pts):
         ev += ['%d = E "x%d"' % (t, i), '%d = E "section s%d"' % (t, i), '%d = E "lyric l%d"' % (t, i)]
         nxt = pts[i + 1] - t if i + 1 < len(pts) else 2
-        body += ["%d = N %d %d" % (t, i % 5, nxt), "%d = S 2 1" % t, "%d = E solo" % t]
-    return mk(res=res, sync=sync, events=ev, tracks={"ExpertSingle": body}), pts
+        k = i % 4
+        if k == 0:  # single lane sustained to the next probe tick
+            body += ["%d = N %d %d" % (t, i % 5, nxt)]
+        elif k == 1:  # sustained OPEN note
+            body += ["%d = N 7 %d" % (t, nxt)]
+        elif k == 2:  # chord whose longest lane reaches the next probe tick, tap flag carrying a length
+            body += ["%d = N 0 0" % t, "%d = N 3 %d" % (t, nxt), "%d = N 6 %d" % (t, nxt + 3)]
+        else:  # orange lane alone
+            body += ["%d = N 4 %d" % (t, nxt)]
+        body += ["%d = S 2 1" % t, "%d = E solo" % t]
+        body2 += ["%d = N 7 %d" % (t, nxt) if i % 2 == 0 else "%d = N 2 %d" % (t, nxt), "%d = E e" % t]
+    return mk(res=res, sync=sync, events=ev, tracks=[("ExpertSingle", body), ("EasyGHLBass", body2)]), pts
 
 
 def check_map(ctx, tempo, res):
@@ -199,6 +216,18 @@ def run_shard(shard, ctx):
                     for g2 in ((1, 192) if kmax == 2 else (1, 2, 192, 1000)):
                         for n2 in (BPMS3_QUICK if kmax == 2 else BPMS):
                             check_map(ctx, [(0, n0), (g1, n1), (g1 + g2, n2)], r)
+    elif kind == "long":
+        _, r, n_events = shard
+        cyc_b = (120000, 60000, 240001, 1118, 333333, 90500, 10**9, 1000)
+        for gaps in ((1,), (2, 1), (192, 7, 1), (3, 5, 1000)):
+            for rot in range(0, len(cyc_b), 3):
+                ctx.node()
+                ticks, t = [], 0
+                for i in range(n_events):
+                    ticks.append(t)
+                    t += gaps[i % len(gaps)]
+                tempo = [(tk, cyc_b[(i + rot) % len(cyc_b)]) for i, tk in enumerate(ticks)]
+                check_map(ctx, tempo, r)
     else:
         _, r, n0, n1, kmax = shard
         ctx.node(2)
